@@ -931,6 +931,10 @@ func (v Value) toReflectValue(typ reflect.Type) (reflect.Value, error) {
 			}
 			exported := reflect.ValueOf(v.export())
 			if exported.IsValid() && exported.Type().ConvertibleTo(typ) {
+				if typ.Kind() == reflect.Array && exported.Kind() == reflect.Slice && exported.Len() != typ.Len() {
+					// Convert panics for a shorter slice and drops the tail of a longer one.
+					return reflect.Value{}, fmt.Errorf("TypeError: could not convert an array of length %d to %v", exported.Len(), typ)
+				}
 				return exported.Convert(typ), nil
 			}
 			return reflect.Value{}, fmt.Errorf("TypeError: could not convert %v to reflect.Type: %v", exported, typ)
